@@ -40,10 +40,14 @@ def quick_sets(crate, repo=None):
     sets = [[]] + [[f] for f in flags]
     return table, flags, cl, sets
 
+def SCRATCH_SUFFIX():
+    """Parallel scratch runs (tools/run_matrix.py --jobs) keep their cargo target directories apart."""
+    return os.environ.get("VERIF_SCRATCH_SUFFIX", "")
+
 def cargo_check(crate, feats, default=False, repo=None):
     env = dict(os.environ)
     env["CARGO_NET_OFFLINE"] = "true"
-    env["CARGO_TARGET_DIR"] = os.path.join(CACHE, "target-feat", crate)
+    env["CARGO_TARGET_DIR"] = os.path.join(CACHE, "target-feat" + SCRATCH_SUFFIX(), crate)
     cmd = ["cargo", "check", "--offline", "--quiet", "-p", crate]
     if not default:
         cmd += ["--no-default-features"]
